@@ -178,6 +178,10 @@ var closers = map[string]string{"(": ")", "[": "]", "{": "}", "<": ">", "${": "}
 
 var eofTails = []string{".", "..", " ..", "1.", "1e", "1e+", "1e-", "1E+", " 1e+", ":1e-", "\\", "/", "/*", "/* *", "<", "<!-", "<!--", "'", "\"", "`", "${", "`${", "0x", "0b", "0o", "1_", ".e", "#", "#!", "@", "url(", "url( ", "\\u", "\\u{", "\\u{1", "\\x", "\\x4", "a.", "a?.", "a?", "a=", "a=>", "a<", "a<b>", "class", "class A extends", "import(", "import ", "import.", "export", "export {", "export *", "async", "for(", "-", "--", "->", "+", "u+", "U+1", "U+1-", "!", "!i", "&", "&&=", "??", "@media", "calc(", "var(", ":is(", "::", "[a", "[a=", "[a='", "{\"a\":", "[1,", "1e309", "</", "<a", "<a b", "<a b=", "<a>", "{", "(", "[", "a:", "a ? b :", "=>", "\r", "\n//", "//#", "//# sourceMappingURL=", "/*# sourceMappingURL=", "@import", "@import '", "!important", "--x:", "x:;", "0/", "/=", "/[", "/[/", "/a/", "/a/g", "#a", "#a in", "a.#", "new.", "new.t", "super.", "0.", "0..", "1n", "0n.", ".5.", "09", "08.", "1__", "\\0", "'\\", "\"\\", "`\\"}
 
+var jsTails = []string{".", "..", " ..", "a..", "1.", "1e", "1e+", "1e-", "1E+", "0x", "0b", "0o", "0X", "1_", "1__", ".e", ".5.", "09", "08.", "0.", "0..", "1n", "0n.", "1e309", "\\", "\\u", "\\u{", "\\u{1", "\\u{110000}", "\\x", "a\\", "a\\u", "a\\u{", "a\\u00", "/", "/*", "/* *", "/**/ /", "//", "//#", "//# sourceMappingURL=", "//# sourceURL=", "//! legal", "/[", "/[/", "/a/", "/a/g", "/=", "a/", "<", "<!-", "<!--", "-->", "'", "\"", "`", "${", "`${", "`${a", "'\\", "\"\\", "`\\", "'\\u", "'\\x4", "#", "#!", "#a", "#a in", "a.#", "@", "@a", "a.", "a?.", "a?", "a ? b :", "a=", "a=>", "=>", "a<", "a<b>", "a<b>(", "<a", "<a b", "<a b=", "<a>", "</", "<a></", "<>", "<a b={", "<a {...", "class", "class A extends", "class A {", "class A { static", "class A { #", "class A { get", "import(", "import ", "import.", "import a from", "import {", "import * as", "export", "export {", "export *", "export default", "async", "async (", "for(", "for await", "-", "--", "+", "++", "!", "~", "&", "&&=", "??", "?.", "**", ">>>=", "...", "{", "(", "[", "a:", "new.", "new.t", "super.", "yield", "await", "let", "let [", "using", "a as", "a satisfies", "enum", "enum A {", "declare", "abstract class", "type A =", "type A<", "interface A", "namespace", "function", "function*", "function f(", "function f<", "x = function", "@dec class", "if(", "else", "do", "while(", "switch(a){case", "try{", "try{}catch", "throw", "return", "break a", "a\r", "a\u2028", "\uFEFF"}
+var cssTails = []string{".", "..", "1.", "1e", "1e+", "1e-", "1E+", " 1e+", "a{b:1e-", "a{b:1e", "a{b:+", "a{b:-", "a{b:+.", "a{b:-.", "a{b:.", "a{b:#", "a{b:#12345", "a{b:1%", "a{b:1e3px", "\\", "a\\", "a\\41", "a\\ ", "\\\n", "/", "/*", "/* *", "<", "<!-", "<!--", "-", "--", "-->", "-\\", "'", "\"", "'\\", "\"\\", "'\\\n", "#", "#a", "#\\", "@", "@a", "@\\", "@media", "@media (", "@import", "@import '", "@import url(", "@charset \"", "@font-face{", "@keyframes a{", "@keyframes a{0%", "@supports (", "@layer", "@container a (", "@property --a{", "url(", "url( ", "url('", "url(a", "url(a ", "url(\\", "url(a\\", "u+", "U+1", "U+1-", "U+?", "u+1?-", "!", "!i", "!important", "a{b:c!", "&", "&&", "a{&", "a{&:hover", ":", "::", ":is(", ":not(", ":global", ":local(", ":global(.a", ":nth-child(", ":nth-child(2n+", ":nth-child(2n -", "[a", "[a=", "[a='", "[a=b i", "[a|", "a|", "*|", "a>", "a+", "a~", "a,", "a{", "a{b", "a{b:", "a{b:c", "a{b:c;", "a{--x:", "a{--x:{", "a{b:calc(", "a{b:calc(1+", "a{b:var(", "a{b:var(--a,", "a{b:rgb(", "a{b:rgb(1 2 3 /", "a{color:#ff", "a{b:1/", "a{composes:", "a{composes:b from", "a{composes:b from x", "a{composes:b from '", "a{composes:b from global", "a{animation:x", "a{b:c}}", "}", "{", "(", "[", "a{b:(", "a{b:[", "a{b:{", "0", "00", "-0", "+0", ".0", "a{b:0.", "a{b:-0.0e-0", "a{margin:0 0 0", "a{b:1 1 1 1 1", "\r", "\f", "\x00", "\uFEFF"}
+var jsonTails = []string{"", "{", "[", "{\"a\"", "{\"a\":", "{\"a\":1,", "[1,", "\"", "\"\\", "\"\\u", "\"\\u12", "-", "1.", "1e", "1e+", "0x", "01", "t", "tru", "nul", "/", "/*", "//", "1 /", "[1]/", "\uFEFF", "\x00", "NaN", "-Infinity", "{\"__proto__\":", "[[[[[[[[", "{\"a\":{\"a\":{\"a\":"}
+
 const maxInput = 40000 // the property's bound: inputs of tens of kilobytes
 
 func clipBytes(b []byte) []byte {
@@ -315,6 +319,11 @@ func Mutate(r *Rng, in []byte, others []Seed) ([]byte, string) {
 		case 13: // a run of one byte
 			c := []byte{0, ' ', '\n', '\\', '(', '/', '*', '0', '.', 0xFF, 0x80, '-', '+', '{', '<', '"'}[r.Intn(16)]
 			nrep := []int{3, 50, 1000, 9000}[r.Intn(4)]
+			if (c == '{' || c == '(' || c == '<') && nrep > 2500 {
+				// unbalanced openers: the pretty-printed output is quadratic in the depth (indentation);
+				// 9000 levels are 160 MB of output - stay inside the property's bound
+				nrep = 2500
+			}
 			b = append(b[:pos:pos], append([]byte(strings.Repeat(string([]byte{c}), nrep)), b[pos:]...)...)
 			desc = append(desc, fmt.Sprintf("run(%#x x%d)@%d", c, nrep, pos))
 		}
@@ -359,7 +368,85 @@ func randMappings(r *Rng) string {
 	return sb.String()
 }
 
+func unitsToJSON(u []uint16) string {
+	var sb strings.Builder
+	for _, c := range u {
+		if c >= 0x20 && c < 0x7F && c != '"' && c != '\\' {
+			sb.WriteByte(byte(c))
+		} else {
+			fmt.Fprintf(&sb, "\\u%04X", c)
+		}
+	}
+	return sb.String()
+}
+
+// a well-formed version-3 map whose mappings are mostly valid (so that it is accepted and USED by
+// the printer/linker: Find, line-offset composition), with boundary values
+func validishSourceMapJSON(r *Rng) []byte {
+	sl, nl := 1+r.Intn(3), r.Intn(3)
+	var srcs, names, cont []string
+	for i := 0; i < sl; i++ {
+		srcs = append(srcs, fmt.Sprintf("\"orig%d.js\"", i))
+		cont = append(cont, "\"let a = 1\\nlet b = 2\\n\"")
+	}
+	for i := 0; i < nl; i++ {
+		names = append(names, fmt.Sprintf("\"n%d\"", i))
+	}
+	var u []uint16
+	for k := 1 + r.Intn(3); k > 0; k-- {
+		u = append(u, structuredMappings(r, sl, nl)...)
+		u = append(u, ';')
+	}
+	doc := fmt.Sprintf(`{"version":3,"sources":[%s],"names":[%s],"mappings":"%s"`, strings.Join(srcs, ","), strings.Join(names, ","), unitsToJSON(u))
+	if r.Bool() {
+		doc += `,"sourcesContent":[` + strings.Join(cont[:1+r.Intn(len(cont))], ",") + `]`
+	}
+	return []byte(doc + "}")
+}
+
+// a strictly valid map (accepted, then used by the printer for every position lookup)
+func validSourceMapJSON(r *Rng) []byte {
+	sl, nl := 1+r.Intn(3), r.Intn(3)
+	var srcs, names []string
+	for i := 0; i < sl; i++ {
+		srcs = append(srcs, fmt.Sprintf("\"orig%d.js\"", i))
+	}
+	for i := 0; i < nl; i++ {
+		names = append(names, fmt.Sprintf("\"n%d\"", i))
+	}
+	var u []uint16
+	src, name := 0, 0
+	for line := r.Intn(4); line >= 0; line-- {
+		for k := r.Intn(4); k > 0; k-- {
+			u = append(u, vlqUnits(int64(r.Intn(6)))...)
+			ns := r.Intn(sl)
+			u = append(u, vlqUnits(int64(ns-src))...)
+			src = ns
+			u = append(u, vlqUnits(int64(r.Intn(3)))...)
+			u = append(u, vlqUnits(int64(r.Intn(4)))...)
+			if nl > 0 && r.Chance(40) {
+				nn := r.Intn(nl)
+				u = append(u, vlqUnits(int64(nn-name))...)
+				name = nn
+			}
+			if k > 1 {
+				u = append(u, ',')
+			}
+		}
+		if line > 0 {
+			u = append(u, ';')
+		}
+	}
+	return []byte(fmt.Sprintf(`{"version":3,"sources":[%s],"names":[%s],"mappings":"%s"}`, strings.Join(srcs, ","), strings.Join(names, ","), unitsToJSON(u)))
+}
+
 func randSourceMapJSON(r *Rng, seeds []Seed) []byte {
+	if r.Chance(30) {
+		return validSourceMapJSON(r)
+	}
+	if r.Chance(40) {
+		return validishSourceMapJSON(r)
+	}
 	if len(seeds) > 0 && r.Chance(25) {
 		m, _ := Mutate(r, []byte(seeds[r.Intn(len(seeds))].Text), seeds)
 		return m
